@@ -96,6 +96,19 @@ def c14(cx):
             cx.violations.append({'kind': kind, 'program': r['name'], 'prop': 'C14', 'field': kind, 'where': kind, 'detail': detail, 'src': r['src'], 'env': None})
     nseeds = 4 if cx.quick() else 32
     sitems = [{'name': f'c14seed/{cx.seed}/{k}', 'src': src, 'seeds': list(range(nseeds))} for k, src in enumerate(progs[:(6 if cx.quick() else 40)])]
+    # regression corpus first: witnesses of repaired hash-seed / history defects (known_findings F25), then programs with the
+    # known-defect shapes allowed (where the worklist's fixpoint is not unique, any order effect shows)
+    corpus_items = []
+    for f in sorted(os.listdir(os.path.join(HERE, '..', 'corpus'))):
+        try:
+            w = json.load(open(os.path.join(HERE, '..', 'corpus', f)))
+        except Exception:  # noqa
+            continue
+        if w.get('kind') == 'hash-seed':
+            corpus_items.append({'name': 'corpus:' + f, 'src': w['src'], 'seeds': list(range(8))})
+    shape_items = [{'name': f'c14shapes/{cx.seed}/{k}', 'src': gen.fragment(cx.seed, 7000 + k, shapes=True)[0], 'seeds': list(range(6 if cx.quick() else 12))}
+                   for k in range(6 if cx.quick() else 60)]
+    sitems = corpus_items + shape_items + sitems
     sres = engine.run_items_with(c14_seeds, sitems)
     for r in sres:
         runs += r['n']
